@@ -6,6 +6,10 @@ import copy, json, os, random, time
 from vlib import *
 
 CONT_TEMPLATES = [
+    [{"op": "store", "rel": True, "n": 2, "sz": [1, 1]}],
+    [{"op": "store", "rel": True, "n": 1, "sz": [2]}],
+    [{"op": "store", "rel": True, "n": 2, "sz": [1, 2]}],
+    [{"op": "store", "rel": True, "n": 2, "sz": [2, 2]}],
     [{"op": "store", "rel": True, "n": 1, "sz": [1]}],
     [{"op": "store", "rel": True, "n": 2, "sz": [2, 1]}],
     [{"op": "store", "rel": True, "n": 1, "sz": [2]}, {"op": "store", "rel": True, "n": 1, "sz": [1]}],
@@ -14,6 +18,9 @@ CONT_TEMPLATES = [
     [{"op": "set", "key": 1, "val": 3}, {"op": "store", "rel": True, "n": 1, "sz": [1]}, {"op": "getk", "key": 1}],
     [{"op": "delete", "rel": True, "reldel": "all"}, {"op": "store", "rel": True, "n": 1, "sz": [1]}],
 ]
+
+
+CHAIN_TEMPLATES = [0, 1, 2, 3, 4, 5]     # the append-only continuations (all batch shapes over sizes 1..2)
 
 
 # ------------------------------------------------------------------ generation
@@ -84,7 +91,7 @@ def run_jobs(jobs, wd, tag, need_io=False, timeout=3000):
     return op, (ip if need_io else None), stats
 
 
-def expand_images(io_path, wd, max_exh=10, nrandom=48, timeout=900, stats=None):
+def expand_images(io_path, wd, max_exh=10, nrandom=48, timeout=2400, stats=None):
     """TLC enumerates the crash images of every recorded run (spec/DiskTrace.tla)."""
     cfg = cfg_text(constants={"TraceFile": "io.ndjson", "MaxExh": max_exh, "NRandom": nrandom},
                    invariants=["Emit"], post="Consumed")
@@ -115,7 +122,7 @@ def _node(job, path):
     return node
 
 
-def attach_forks(jobs, images_by_path, rng, max_per_run, cont_choice=None, expand_next=0):
+def attach_forks(jobs, images_by_path, rng, max_per_run, cont_choice=None, expand_next=0, replicate=True):
     """Attach (a sample of) TLC's images as forks of the runs they belong to."""
     byid = {j["id"]: j for j in jobs}
     total = 0
@@ -126,7 +133,9 @@ def attach_forks(jobs, images_by_path, rng, max_per_run, cont_choice=None, expan
         keyed = sorted(((json.dumps(im, sort_keys=True), im) for im in imgs), key=lambda t: t[0])
         imgs = [t[1] for t in keyed]
         if len(imgs) > max_per_run:
-            # stratify by crash point so that every I/O boundary keeps some images
+            # stratify by crash point so that every I/O boundary keeps some images; within a crash point prefer the
+            # boundary subsets (one or two chunks persisted / one or two chunks missing): nearly complete and nearly
+            # empty torn batches are the ones recovery has to tell apart
             by_at = {}
             for i, im in enumerate(imgs):
                 by_at.setdefault(im["at"], []).append(i)
@@ -134,8 +143,15 @@ def attach_forks(jobs, images_by_path, rng, max_per_run, cont_choice=None, expan
             pick = []
             for at in sorted(by_at):
                 l = by_at[at]
-                rng.shuffle(l)
-                pick += l[:quota]
+                nk = {i: sum(len(v) for v in imgs[i]["keep"].values()) for i in l}
+                d = max(nk.values()) if nk else 0
+                edge = [i for i in l if nk[i] in (1, 2, d - 1, d - 2) and d > 2]
+                rest_ = [i for i in l if i not in set(edge)]
+                rng.shuffle(edge)
+                rng.shuffle(rest_)
+                half = max(1, quota // 2)
+                sel = edge[:half] + rest_[:quota - min(half, len(edge))]
+                pick += sel[:quota]
             chosen = set(pick)
             rest = [i for i in range(len(imgs)) if i not in chosen]
             rng.shuffle(rest)
@@ -152,9 +168,37 @@ def attach_forks(jobs, images_by_path, rng, max_per_run, cont_choice=None, expan
         # which forks get expanded one level deeper
         if expand_next > 0 and forks:
             nontriv = [f for f in forks if any(f["image"]["keep"].values())]
+            # chains need torn remains behind the tail: prefer images that kept most but not all of a batch
+            def _k(f):
+                return sum(len(v) for v in f["image"]["keep"].values())
+            dmax = {}
+            for f in forks:
+                dmax[f["image"]["at"]] = max(dmax.get(f["image"]["at"], 0), _k(f))
+            near = [f for f in nontriv if dmax[f["image"]["at"]] > 2 and _k(f) in (dmax[f["image"]["at"]] - 1, dmax[f["image"]["at"]] - 2)]
+            if len(near) >= expand_next // 2 and expand_next >= 2:
+                picked = rng.sample(near, expand_next // 2)
+                for f in picked:
+                    f["expand"] = True
+                nontriv = [f for f in nontriv if f not in picked]
+                expand_next_left = expand_next - len(picked)
+            else:
+                expand_next_left = expand_next
             pool = nontriv if nontriv else forks
-            for f in rng.sample(pool, min(expand_next, len(pool))):
+            for f in rng.sample(pool, min(expand_next_left, len(pool))):
                 f["expand"] = True
+        if job.get("chain") and replicate:
+            # chains of crash / recover / append (C02): every expanded image is continued with EVERY append shape,
+            # so that the size relation between the torn batch and the next one is covered, not sampled
+            extra = []
+            for f in forks:
+                if f.get("expand"):
+                    for ti in CHAIN_TEMPLATES:
+                        if CONT_TEMPLATES[ti] != f["cont"]:
+                            g = copy.deepcopy(f)
+                            g["id"] = "%st%d" % (f["id"], ti)
+                            g["cont"] = copy.deepcopy(CONT_TEMPLATES[ti])
+                            extra.append(g)
+            forks += extra
         node["forks"] = forks
         total += len(forks)
     return total
@@ -381,8 +425,9 @@ class Engine:
                                        "props": IO_ATTR.get(v["clause"], ["C01"]), "replay_job": prune_job(job, None) if job else {}})
             by = expand_images(io, self.wd, max_exh=max_exh, nrandom=nrandom, stats=self.stats)
             t2 = time.time()
+            en = expand_next if isinstance(expand_next, (list, tuple)) else [expand_next]
             n = attach_forks(jobs, by, self.rng, per_run[min(lvl, len(per_run) - 1)],
-                             expand_next=(expand_next if lvl + 1 < depth else 0))
+                             expand_next=(en[min(lvl, len(en) - 1)] if lvl + 1 < depth else 0), replicate=(lvl == 0))
             log("level %d: %d runs expanded, %d images, %d forks attached (run %.1fs, tlc %.1fs, attach %.1fs)" % (
                 lvl, len(by), sum(map(len, by.values())), n, t1 - t0, t2 - t1, time.time() - t2))
         return self.final(list(jobs) + list(extra_final), tag)
